@@ -3,7 +3,8 @@ from __future__ import annotations
 
 from typing import Any, Dict, List, Optional, Set, Tuple
 
-from ..facts import AnalysisError
+import ast
+from ..facts import AnalysisError, norm
 from ..report import Check
 from ..symexec import SymExec, freeze, show, Path, Event
 from .. import opmodel as om
@@ -38,6 +39,13 @@ def key_uses(F, fi, cparam: str, kparam: str) -> List[Tuple[Optional[bool], Opti
         def nf(t):
             return _subst(A.strip_ids(freeze(t)), Kn, 'K')
         for e in p.events:
+            if e.kind == 'call' and e.resolved in F.functions and om.mentions(freeze(tuple(e.args)), Kn):
+                memo = [d for d in getattr(F.functions[e.resolved].node, 'decorator_list', [])
+                        if norm(d.func if isinstance(d, ast.Call) else d).rsplit('.', 1)[-1] in ('lru_cache', 'cache', 'cached', 'memoize', 'memoized')]
+                if memo:
+                    # the evaluator looks through the decorator; the key that comes back is whatever the cache holds for an
+                    # *equal* argument (1 == True == Decimal('1.0') share one entry), not the text of this one
+                    out.append((isdict, isdec, ('memoised', e.resolved, norm(memo[0])), e))
             if e.kind in ('load_sub', 'store_sub', 'aug_sub', 'del_sub') and freeze(e.obj) == Cn:
                 out.append((isdict, isdec, nf(e.index), e))
             elif e.kind == 'assume':
@@ -66,7 +74,11 @@ def check(chk: Check) -> None:
                             'and every pop converts the lookup error and no mutation of the container precedes it', floor=3)
     R4 = chk.rule('C14.R4', 'explicit bounds tests in front of a list access admit every valid position: a comparison between the '
                             'position and len(container) that guards the access holds for all -len <= k <= len-1 (linear check at both ends)', floor=1)
-    chk.decided += ['bounds tests never turn away a valid (incl. negative) position (R4)',
+    R5 = chk.rule('C14.R5', 'membership looks at the element itself: the `in` / `not in` operators test the evaluated left operand as '
+                            'it is - a position or key cast applied to the needle tests for a different element (2.5 in [1, 2] '
+                            'would find 2)', floor=1)
+    chk.decided += ['membership needles are not cast (R5)',
+                    'bounds tests never turn away a valid (incl. negative) position (R4)',
                     'sibling agreement of the key normalisation across the five keyed accessors and dict literals (R1)',
                     'truncating index conversion (R2)', 'lookup-error conversion without prior mutation (R3)']
     chk.not_decided += ['model equivalence under operation sequences, negative-index arithmetic beyond explicit bounds tests, keys/values/items/len/in '
@@ -147,6 +159,7 @@ def check(chk: Check) -> None:
         chk.require(not problems and n, R2, 'FUNCTIONS[%r]' % key, fi.where, '; '.join(sorted(set(problems))) or 'position converted with int()')
 
     index_guards(chk, R4, acc)
+    _membership(chk, R5)
 
     # --------------------------------------------------------------------- R3
     sites = lookup_sites(chk)
@@ -162,6 +175,51 @@ def check(chk: Check) -> None:
         muts = mutation_events(F, SymExec(F, fi).run())
         chk.require(not muts, R3, 'FUNCTIONS[%r] reads without writing' % name, fi.where,
                     '; '.join(sorted({m[2] for m in muts})) or 'no mutation of the container in the reader')
+
+
+def _membership(chk: Check, R5: str) -> None:
+    F = chk.facts
+    from .c07 import grammar_ops, child_events
+    for cls in om.op_classes(F):
+        q = cls + '.eval'
+        if cls == om.ROOT or q not in F.functions:
+            continue
+        kinds = om.op_field_kinds(F, cls)
+        if kinds.get('op') != 'str':
+            continue
+        opfields = [f for f, k in kinds.items() if k == 'op']
+        if len(opfields) != 2:
+            continue
+        selft, stt = ('param', om.self_param(F, q)), ('param', om.state_param(F, q))
+        for op in grammar_ops(F, cls):
+            if op not in ('in', 'not in'):
+                continue
+            problems = []
+            n = 0
+            for p in om.eval_paths(F, cls, op):
+                if not p.normal:
+                    continue
+                ce = child_events(F, p, selft, stt)
+                res = {c[0]: freeze(c[2].result) for c in ce if c[2].kind == 'call'}
+                a, b = res.get(opfields[0]), res.get(opfields[1])
+                tests = []
+
+                def scan(t):
+                    if isinstance(t, tuple):
+                        if t[:2] == ('cmp', 'in') and len(t) == 4:
+                            tests.append(t)
+                        for x in t:
+                            scan(x)
+                scan(freeze(p.outcome[1]))
+                for c, _, _ in p.assumptions:
+                    scan(freeze(c))
+                for t in tests:
+                    if b is not None and om.mentions(t[3], b) or t[3] == b:
+                        n += 1
+                        if t[2] != a:
+                            problems.append('the membership test is `%s in %s`: the needle is not the left operand itself' % (show(t[2]), show(t[3])))
+            chk.require(not problems and n, R5, '%s [op=%r]' % (q, op), F.func(q).where,
+                        '; '.join(sorted(set(problems))) or ('tests the evaluated left operand itself' if n else 'no membership test on the right operand found'))
 
 
 def _lin(t, V, N):
